@@ -83,7 +83,8 @@ def certfile(name):
 
 def cert_b64(name):
     """base64 body of the certificate (what goes into ds:X509Certificate)"""
-    lines = open(certfile(name)).read().strip().splitlines()
+    with open(certfile(name)) as f:
+        lines = f.read().strip().splitlines()
     return ''.join(l for l in lines if not l.startswith('-----'))
 
 
